@@ -1,0 +1,66 @@
+//! Verification hooks (compiled only with the `verif-hooks` feature).
+//!
+//! A thread-local observer is told about every entry to and exit from
+//! `Value::resolve`. The model-checking harness in /verif uses it as the
+//! scheduling point of its interleaving explorer, to count evaluations per
+//! AST node and to enforce a step budget. With the feature off nothing of
+//! this exists in the build.
+use crate::Expression;
+use std::cell::RefCell;
+
+pub enum Event {
+    Enter(u64),
+    Exit(u64),
+}
+
+type Observer = Box<dyn FnMut(Event)>;
+
+thread_local! {
+    static OBSERVER: RefCell<Option<Observer>> = const { RefCell::new(None) };
+}
+
+/// Installs (or clears) the observer of the calling thread, returning the previous one.
+pub fn set_observer(o: Option<Observer>) -> Option<Observer> {
+    OBSERVER.with(|c| std::mem::replace(&mut *c.borrow_mut(), o))
+}
+
+fn emit(e: Event) {
+    // The observer is taken out of the slot while it runs so that a re-entrant
+    // resolve from inside the observer cannot double-borrow.
+    let taken = OBSERVER.with(|c| c.borrow_mut().take());
+    if let Some(f) = taken {
+        struct Restore(Option<Observer>);
+        impl Drop for Restore {
+            fn drop(&mut self) {
+                let f = self.0.take();
+                OBSERVER.with(|c| {
+                    let mut b = c.borrow_mut();
+                    if b.is_none() {
+                        *b = f;
+                    }
+                });
+            }
+        }
+        // Restored on the way out even if the observer unwinds (step budget).
+        let mut r = Restore(Some(f));
+        if let Some(f) = r.0.as_mut() {
+            f(e);
+        }
+    }
+}
+
+pub struct Guard(u64);
+
+impl Drop for Guard {
+    fn drop(&mut self) {
+        if !std::thread::panicking() {
+            emit(Event::Exit(self.0));
+        }
+    }
+}
+
+#[inline]
+pub fn enter(expr: &Expression) -> Guard {
+    emit(Event::Enter(expr.id));
+    Guard(expr.id)
+}
